@@ -160,6 +160,9 @@ Quiesce ==
   /\ G("C03", ~st.connDown /\ ~st.anyBad /\ ~st.closeCalled => \A p \in st.entered : p[1] \in st.wireReply)
      \* C08: closing loses no reply of a handler that was entered before Close() was called
   /\ G("C08", ~st.connDown /\ ~st.anyBad /\ st.closeCalled => \A q \in st.enteredBeforeClose : q \in st.wireReply)
+     \* C08: an effective Close() has not returned (and torn the connection down) over a call this side had issued
+     \*      before: such a call completes with the peer's reply or, if the connection is lost first, with an error
+  /\ G("C08", st.closeReturned /\ st.closeEffective => \A i \in 1..Len(Ev.pending) : Ev.pending[i] \notin st.retBeforeClose)
   /\ UNCHANGED st /\ Step
 
 Known == {"Reset", "CallStart", "CallRet", "RemoteReply", "CallDone", "RemoteCall", "ConnDown", "HEnter",
